@@ -1,6 +1,7 @@
 package main
 
 import (
+	"os"
 	"fmt"
 	"go/token"
 	"strings"
@@ -23,6 +24,8 @@ func runC02(w *World, r *Report) {
 	r.Rule("C02-R5", "channel-key provenance", "tsManager calls from replicateChannelHandler methods pass getTSManagerChannelKey(r.targetPChannel) (or r.replicateID, r.targetPChannel separately)", 12)
 	r.Rule("C02-R6", "per-shard target info", "model.TargetCollectionInfo literal in StartReadCollection: VChannel<-paired target vchannel, PChannel<-ToPhysicalChannel(it), CollectionID/PartitionInfo<-downstream collection info", 4)
 	r.Rule("C02-R7", "one id domain per use", "source-keyed consumers get source ids; synthetic drop messages carry source ids; no comparison between a downstream id and a source id", 12)
+	r.Rule("C02-R9", "no id from a failed lookup", "handlePack: the error of getCollectionTargetInfo / getPartitionID(s) is tested before the message can be appended or the loop continued (except on drop-state / `-1` sentinel edges), and the error branch reports and returns: no message is emitted with an id that a failed lookup left at zero", 5)
+	hpLookupErrors(w, r, "C02-R9")
 	r.Rule("C02-R8", "handler map is keyed by mapping keys", "every lookup in channelHandlerMap uses a key from ChannelMapping.GetMapKey / getChannelMapKey", 2)
 
 	m := buildHPModel(w)
@@ -399,7 +402,7 @@ func runC02(w *World, r *Report) {
 	}
 
 	// ---------- R7 id domains
-	c02IDDomains(w, r, m)
+	c02IDDomains(w, r, m, "C02-R7", false)
 
 	// ---------- R8 handler map keys
 	for _, g := range w.RepoFuncs() {
@@ -421,13 +424,24 @@ func runC02(w *World, r *Report) {
 						okKey = true
 					}
 				}
+				// the recorded mapping key read directly from sourcePChannelKeyMap (getChannelMapKey inlined)
+				if os.Getenv("VDEBUG") != "" {
+					if lk2, isL := x.(*ssa.Lookup); isL {
+						fmt.Println("DEBUG lookup", w.accessPath(lk2.X), "|", w.accessPath(lk2))
+					}
+				}
+				if lk2, isL := x.(*ssa.Lookup); isL && strings.Contains(w.accessPath(lk2.X), ".sourcePChannelKeyMap[]") {
+					okKey = true
+				}
 			}
 			r.Check(okKey, "C02-R8", fmt.Sprintf("%s | channelHandlerMap lookup#%d", shortFn2(g), k), lk.Pos(), "key from GetMapKey / getChannelMapKey", "the handler table (keyed by the mapping key: source or target channel depending on the channel counts) is looked up with "+w.accessPath(lk.Index)+": with equally named or crossed channels the wrong handler is selected")
 		})
 	}
 }
 
-func c02IDDomains(w *World, r *Report, m *hpModel) {
+// dropOnly restricts the rule to the drop bookkeeping (dropped sets, handler removal, synthetic drop messages): that
+// part is also a necessary condition of C04 and is reported there as C04-R7.
+func c02IDDomains(w *World, r *Report, m *hpModel, rule string, dropOnly bool) {
 	_ = m.Fn
 	fam := m.Fam
 	// source-id consumers: callee name -> indices of id arguments (after the receiver)
@@ -475,6 +489,9 @@ func c02IDDomains(w *World, r *Report, m *hpModel) {
 			if !isCons {
 				return
 			}
+			if dropOnly && !(strings.HasPrefix(name, "isDropp") || name == "RemoveCollection" || name == "RemovePartitionInfo") {
+				return
+			}
 			args := callArgs(c.Common())
 			if calleeObj(c.Common()) == nil {
 				args = c.Call.Args
@@ -512,7 +529,7 @@ func c02IDDomains(w *World, r *Report, m *hpModel) {
 						}
 					}
 				}
-				r.Check(bad == "", "C02-R7", cons, c.Pos(), "source id", "a source-keyed lookup/set is given a downstream id: "+bad)
+				r.Check(bad == "", rule, cons, c.Pos(), "source id", "a source-keyed lookup/set is given a downstream id: "+bad)
 			}
 		})
 	}
@@ -520,7 +537,7 @@ func c02IDDomains(w *World, r *Report, m *hpModel) {
 	for _, spec := range []struct{ fn, req string }{{"AddCollection", "DropCollectionRequest"}, {"AddPartitionInfo", "DropPartitionRequest"}} {
 		f := w.Func(pkgReader, "replicateChannelHandler", spec.fn)
 		if f == nil {
-			r.Undecided("C02-R7", spec.fn, 0, "anchor not found")
+			r.Undecided(rule, spec.fn, 0, "anchor not found")
 			continue
 		}
 		ffam := familyOf(f)
@@ -533,13 +550,13 @@ func c02IDDomains(w *World, r *Report, m *hpModel) {
 					ap := w.accessPath(fs.Val)
 					src := strings.Contains(ap, "sourceInfo") || strings.Contains(ap, "collectionInfo.ID") || strings.Contains(ap, "partitionInfo.PartitionID") || strings.HasSuffix(ap, "collectionInfo.ID")
 					tgt := strings.Contains(ap, "targetInfo")
-					r.Check(src && !tgt, "C02-R7", fmt.Sprintf("(*replicateChannelHandler).%s | synthetic %s.%s", spec.fn, spec.req, fs.Field.Name()), fs.Store.Pos(), "<- "+ap+" (source id)", "the synthetic drop message carries "+ap+": handlePack looks the collection up by source id, does not find it and the drop is never replayed")
+					r.Check(src && !tgt, rule, fmt.Sprintf("(*replicateChannelHandler).%s | synthetic %s.%s", spec.fn, spec.req, fs.Field.Name()), fs.Store.Pos(), "<- "+ap+" (source id)", "the synthetic drop message carries "+ap+": handlePack looks the collection up by source id, does not find it and the drop is never replayed")
 				}
 			}
 		}
 	}
 	// RemovePartitionInfo: the comparison PartitionInfo[name] == id
-	if rp := w.Func(pkgReader, "replicateChannelHandler", "RemovePartitionInfo"); rp != nil {
+	if rp := w.Func(pkgReader, "replicateChannelHandler", "RemovePartitionInfo"); rp != nil && !dropOnly {
 		idParam := rp.Params[3]
 		mixed := false
 		var where token.Pos
@@ -572,9 +589,9 @@ func c02IDDomains(w *World, r *Report, m *hpModel) {
 			})
 		}
 		if mixed && srcCallers > 0 {
-			r.Fail("C02-R7", "(*replicateChannelHandler).RemovePartitionInfo | PartitionInfo[name] == id", where, fmt.Sprintf("the downstream partition id stored in PartitionInfo[name] is compared with the id parameter, which all %d callers fill with the SOURCE partition id: the name->id entry of a dropped partition is (practically) never removed and a re-created partition of the same name is re-addressed with the dropped partition's downstream id", srcCallers))
+			r.Fail(rule, "(*replicateChannelHandler).RemovePartitionInfo | PartitionInfo[name] == id", where, fmt.Sprintf("the downstream partition id stored in PartitionInfo[name] is compared with the id parameter, which all %d callers fill with the SOURCE partition id: the name->id entry of a dropped partition is (practically) never removed and a re-created partition of the same name is re-addressed with the dropped partition's downstream id", srcCallers))
 		} else {
-			r.OK("C02-R7", "(*replicateChannelHandler).RemovePartitionInfo | PartitionInfo[name] == id", rp.Pos(), "no cross-domain comparison")
+			r.OK(rule, "(*replicateChannelHandler).RemovePartitionInfo | PartitionInfo[name] == id", rp.Pos(), "no cross-domain comparison")
 		}
 	}
 }
